@@ -166,10 +166,19 @@ class OptShape:
         self.inner = inner
 
 
+class SeqShape:
+    """A list held in an object field (or as an element): arrays of the element's sorts + length."""
+
+    def __init__(self, elem):
+        self.elem = elem
+
+
 def shape_sorts(shape):
     """Flat list of z3 sorts for a shape."""
     if isinstance(shape, z3.SortRef):
         return [shape]
+    if isinstance(shape, SeqShape):
+        return [z3.ArraySort(z3.IntSort(), s) for s in shape_sorts(shape.elem)] + [z3.IntSort()]
     if isinstance(shape, TupShape):
         out = []
         for it in shape.items:
@@ -186,6 +195,10 @@ def flatten(shape, value):
     """Flat list of z3 terms for a value of that shape."""
     if isinstance(shape, z3.SortRef):
         return [coerce(value, shape)]
+    if isinstance(shape, SeqShape):
+        if not isinstance(value, SeqV):
+            raise Unsupported(f"sequence expected for a list-valued field, got {type(value).__name__}")
+        return arrs_of(value) + [value.n]
     if isinstance(shape, TupShape):
         if not isinstance(value, Tup) or len(value.items) != len(shape.items):
             raise Unsupported("tuple shape mismatch")
@@ -212,6 +225,11 @@ def unflatten(shape, terms):
     """Inverse of flatten; consumes from the list `terms` (front)."""
     if isinstance(shape, z3.SortRef):
         return terms.pop(0)
+    if isinstance(shape, SeqShape):
+        k = len(shape_sorts(shape.elem))
+        arrs = [terms.pop(0) for _ in range(k)]
+        n = terms.pop(0)
+        return SeqV(shape.elem, arrs if k > 1 else arrs[0], n)
     if isinstance(shape, TupShape):
         return Tup([unflatten(s, terms) for s in shape.items])
     if isinstance(shape, ObjShape):
